@@ -46,7 +46,13 @@ func genC05(r *rand.Rand, n int, emit func(string)) {
 
 func malformedJSON(r *rand.Rand) string {
 	base := RandContainer(r, 2).Render(r, false)
-	switch r.Intn(16) {
+	switch r.Intn(18) {
+	case 16, 17:
+		// the text ends inside a string, an escape, a literal or a number
+		head := pick(r, []string{`[`, `{"k":`, `["a",`, `{"a":[1,`, `[[`, `{"k":{"n":`})
+		tail := pick(r, []string{`"`, `"ab`, `"ab\`, `"\u`, `"\u0`, `"\u00`, `"\u00e`, `"x\ud83d`, `"x\ud83d\`, `"x\ud83d\u`, `"x\ud83d\ude0`,
+			`t`, `tr`, `tru`, `fals`, `nul`, `n`, `-`, `1.`, `1e`, `1e+`, `0.`, `-0.`})
+		return head + tail
 	case 0:
 		return base[:r.Intn(len(base))] // truncated (may be empty)
 	case 1:
